@@ -62,6 +62,8 @@ def marker_probes(m, item):
     fn = f"fn need<T: {which}>() {{}}\n"
     out[f"pos_marker__{ty}__{which}"] = HEAD + fn + f"fn main() {{ need::<{inst('u64', 'u64')}>(); }}\n"
     cell, rc = "std::cell::Cell<u64>", "std::rc::Rc<u64>"
+    # Sync but not Send: a bound weakened from Send to Sync accepts it (Rc is neither, Cell is Send only)
+    guard = "std::sync::MutexGuard<'static, u64>"
     if item:
         if item["shares_k"]:
             out[f"neg_marker__{ty}__{which}__K_not_sync"] = HEAD + fn + f"fn main() {{ need::<{inst(cell, 'u64')}>(); }}\n"
@@ -70,10 +72,16 @@ def marker_probes(m, item):
         if item["mut_v"]:
             bad = rc if which == "Send" else cell
             out[f"neg_marker__{ty}__{which}__V_bad"] = HEAD + fn + f"fn main() {{ need::<{inst('u64', bad)}>(); }}\n"
+            if which == "Send":
+                # an iterator handing out &mut V moves V's across threads: V must be Send, Sync is not enough
+                out[f"neg_marker__{ty}__{which}__V_sync_not_send"] = HEAD + fn + f"fn main() {{ need::<{inst('u64', guard)}>(); }}\n"
     else:
         bad = rc if which == "Send" else cell
         out[f"neg_marker__{ty}__{which}__K_bad"] = HEAD + fn + f"fn main() {{ need::<{inst(bad, 'u64')}>(); }}\n"
         out[f"neg_marker__{ty}__{which}__V_bad"] = HEAD + fn + f"fn main() {{ need::<{inst('u64', bad)}>(); }}\n"
+        if which == "Send":
+            out[f"neg_marker__{ty}__{which}__K_sync_not_send"] = HEAD + fn + f"fn main() {{ need::<{inst(guard, 'u64')}>(); }}\n"
+            out[f"neg_marker__{ty}__{which}__V_sync_not_send"] = HEAD + fn + f"fn main() {{ need::<{inst('u64', guard)}>(); }}\n"
     return out
 
 
